@@ -129,6 +129,15 @@ def leafDursL : List Loop → List Rat
 end
 
 mutual
+/-- `Loop.duration` of every node in preorder -/
+def nodeDurs : Loop → List Rat
+  | .mk r v m w cs => duration (.mk r v m w cs) :: nodeDursL cs
+def nodeDursL : List Loop → List Rat
+  | [] => []
+  | c :: cs => nodeDurs c ++ nodeDursL cs
+end
+
+mutual
 def size : Loop → Nat
   | .mk _ _ _ _ cs => 1 + sizeL cs
 def sizeL : List Loop → Nat
@@ -565,19 +574,21 @@ def runOp (op : Op) (t : Loop) : Option (Except Err Loop) :=
 
 /-- the judge: does output tree `o` (as serialised from the implementation) with the reported
 duration / depth / balance satisfy the property for input `t` and rewrite `op`? -/
-def judgeOk (op : Op) (t o : Loop) (rdur : Rat) (rdepth : Nat) (rbal : Bool) : String :=
+def judgeOk (op : Op) (t o : Loop) (rdurs : List Rat) (rdepth : Nat) (rbal : Bool) : String :=
   if ¬ (norm (play o) = norm (play t)) then "played-sequence-changed"
   else if ¬ (duration o = duration t) then "duration-changed"
-  else if ¬ (rdur = duration t) then "reported-duration-changed"
+  else if ¬ (rdurs.head? = some (duration t)) then "reported-duration-changed"
+  else if ¬ (rdurs = nodeDurs o) then "reported-duration-of-a-subprogram-inconsistent"
   else if ¬ (rdepth = depth o ∧ rbal = isBalanced o) then "reported-depth-or-balance-inconsistent"
   else match op with
     | .flatten d => if flattenPostB d o then "ok" else "depth-or-balance-postcondition"
     | .compat a b c => if compatPostB a b c o then "ok" else "length-or-granularity-postcondition"
     | _ => "ok"
 
-def judgeErr (t o : Loop) (rdur : Rat) : String :=
+def judgeErr (t o : Loop) (rdurs : List Rat) : String :=
   if ¬ (norm (play o) = norm (play t)) then "played-sequence-changed-by-failed-rewrite"
-  else if ¬ (duration o = duration t ∧ rdur = duration t) then "duration-changed-by-failed-rewrite"
+  else if ¬ (duration o = duration t ∧ rdurs.head? = some (duration t)) then "duration-changed-by-failed-rewrite"
+  else if ¬ (rdurs = nodeDurs o) then "reported-duration-of-a-subprogram-inconsistent"
   else "ok"
 
 def handle : List Sexp → Sexp
@@ -593,14 +604,14 @@ def handle : List Sexp → Sexp
       | some (.error e) => errS e
       | some (.ok t') => .list [.atom "ok", loopS t', obsS t']
     | _, _ => Sexp.err "bad-args"
-  | [.atom "judge", op, t, .list [.atom "ok", o, rdur, rdepth, rbal]] =>
-    match op? op, loop? t, loop? o, rat? rdur, nat? rdepth, bool? rbal with
-    | some op, some t, some o, some rdur, some rdepth, some rbal =>
-      .list [.atom "judge", .atom (judgeOk op t o rdur rdepth rbal)]
+  | [.atom "judge", op, t, .list [.atom "ok", o, rdurs, rdepth, rbal]] =>
+    match op? op, loop? t, loop? o, listOf? rat? rdurs, nat? rdepth, bool? rbal with
+    | some op, some t, some o, some rdurs, some rdepth, some rbal =>
+      .list [.atom "judge", .atom (judgeOk op t o rdurs rdepth rbal)]
     | _, _, _, _, _, _ => Sexp.err "bad-args"
-  | [.atom "judge", _, t, .list [.atom "error", o, rdur]] =>
-    match loop? t, loop? o, rat? rdur with
-    | some t, some o, some rdur => .list [.atom "judge", .atom (judgeErr t o rdur)]
+  | [.atom "judge", _, t, .list [.atom "error", o, rdurs]] =>
+    match loop? t, loop? o, listOf? rat? rdurs with
+    | some t, some o, some rdurs => .list [.atom "judge", .atom (judgeErr t o rdurs)]
     | _, _, _ => Sexp.err "bad-args"
   | [.atom "sfg", n, m] =>
     match nat? n, nat? m with
